@@ -16,6 +16,7 @@ import (
 	"net/http/httptest"
 	"os"
 	"sort"
+	"strconv"
 	"strings"
 	"time"
 
@@ -47,14 +48,16 @@ type Violation struct {
 }
 
 type Replay struct {
-	Layout string `json:"layout"`
-	Kind   string `json:"kind"`
-	Op     *Op    `json:"op,omitempty"`
-	Text   string `json:"text,omitempty"`
-	Assign Assign `json:"assign,omitempty"`
-	Limit  *int   `json:"limit,omitempty"`
-	A      *int   `json:"a,omitempty"` // safeAdd operands
-	B      *int   `json:"b,omitempty"`
+	Layout  string    `json:"layout"`
+	Kind    string    `json:"kind"`
+	Op      *Op       `json:"op,omitempty"`
+	Text    string    `json:"text,omitempty"`
+	Assign  Assign    `json:"assign,omitempty"`
+	Limit   *int      `json:"limit,omitempty"`
+	History []histReq `json:"history,omitempty"`
+	Fixed   bool      `json:"fixed_limit_server,omitempty"`
+	A       *int      `json:"a,omitempty"` // safeAdd operands
+	B       *int      `json:"b,omitempty"`
 }
 
 type Result struct {
@@ -79,6 +82,7 @@ type Config struct {
 	MaxNodes    int
 	FullGateMax int // sizes <= this: executor gate for every assignment; above: one assignment per distinct complexity value
 	HTTPMax     int // sizes <= this: additionally through handler.Server + POST
+	HistMax     int // sizes <= this: request histories through a long-lived executor
 	Grammar     *Grammar
 	Deadline    time.Time
 }
@@ -185,20 +189,52 @@ type gateOutcome struct {
 	panicValue any
 }
 
-func (w *worker) runExecutor(es graphql.ExecutableSchema, limit *int, text string, opName string, rawVars map[string]any) (out gateOutcome) {
+// session is one long-lived executor: a schema with its custom functions, a query-document
+// cache (as handler.NewDefaultServer configures) and one instance of the limit extension.
+type session struct {
+	exec *executor.Executor
+}
+
+const limitHeader = "X-Complexity-Limit"
+
+// newSession: fixed != nil installs FixedComplexityLimit(*fixed); dynamic installs
+// ComplexityLimit{Func} reading the request's limit from a header (per-request limits);
+// neither: no extension (unlimited baseline). cache nil: the worker's shared cache.
+func (w *worker) newSession(es graphql.ExecutableSchema, fixed *int, dynamic bool, cache graphql.Cache[*ast.QueryDocument]) *session {
+	exec := executor.New(es)
+	if cache == nil {
+		cache = w.cache
+	}
+	exec.SetQueryCache(cache)
+	switch {
+	case fixed != nil:
+		exec.Use(extension.FixedComplexityLimit(*fixed))
+	case dynamic:
+		exec.Use(&extension.ComplexityLimit{Func: func(_ context.Context, opCtx *graphql.OperationContext) int {
+			l, err := strconv.Atoi(opCtx.Headers.Get(limitHeader))
+			if err != nil {
+				panic("harness: request without " + limitHeader)
+			}
+			return l
+		}})
+	}
+	return &session{exec: exec}
+}
+
+// do sends one request through the session's executor the way a transport does.
+func (w *worker) do(s *session, text string, opName string, rawVars map[string]any, dynLimit *int) (out gateOutcome) {
 	defer func() {
 		if r := recover(); r != nil {
 			out.panicValue = r
 		}
 	}()
 	w.log.take()
-	exec := executor.New(es)
-	exec.SetQueryCache(w.cache)
-	if limit != nil {
-		exec.Use(extension.FixedComplexityLimit(*limit))
-	}
+	exec := s.exec
 	ctx := graphql.StartOperationTrace(context.Background())
-	params := &graphql.RawParams{Query: text, OperationName: opName, Variables: rawVars}
+	params := &graphql.RawParams{Query: text, OperationName: opName, Variables: rawVars, Headers: http.Header{}}
+	if dynLimit != nil {
+		params.Headers.Set(limitHeader, strconv.Itoa(*dynLimit))
+	}
 	opCtx, errs := exec.CreateOperationContext(ctx, params)
 	var resp *graphql.Response
 	if errs != nil {
@@ -226,6 +262,84 @@ func (w *worker) runExecutor(es graphql.ExecutableSchema, limit *int, text strin
 		out.stats = extension.GetComplexityStats(graphql.WithOperationContext(ctx, opCtx))
 	}
 	return out
+}
+
+// runExecutor: a fresh executor (sharing the worker's document cache) handling one request.
+func (w *worker) runExecutor(es graphql.ExecutableSchema, limit *int, text string, opName string, rawVars map[string]any) gateOutcome {
+	return w.do(w.newSession(es, limit, false, nil), text, opName, rawVars, nil)
+}
+
+// ---- histories: several requests through ONE long-lived executor with a document cache ----
+
+// histReq is one request of a history; all requests of a history share the query text.
+type histReq struct {
+	Label   string         `json:"label"`
+	OpName  string         `json:"operationName,omitempty"`
+	RawVars map[string]any `json:"variables,omitempty"`
+	Limit   int            `json:"limit"`
+	cref    int
+	base    *gateOutcome
+}
+
+// judge applies the single-request oracle (the same as gate) and returns a description of the
+// first disagreement, or "".
+func judge(o *gateOutcome, cref, limit int, base *gateOutcome) string {
+	switch {
+	case o.panicValue != nil:
+		return fmt.Sprintf("panic: %v", o.panicValue)
+	case len(o.otherErrs) > 0:
+		return fmt.Sprintf("refused for another reason: %v", o.otherErrs)
+	case o.stats == nil || o.stats.Complexity != cref || o.stats.ComplexityLimit != limit:
+		return fmt.Sprintf("ComplexityStats = %+v, want {%d %d}", o.stats, cref, limit)
+	case cref > limit && (!o.rejected || len(o.log) != 0 || (o.data != "" && o.data != "null")):
+		return fmt.Sprintf("over the limit (%d > %d) but rejected=%v resolvers=%v data=%s", cref, limit, o.rejected, o.log, o.data)
+	case cref <= limit && (o.rejected || o.data != base.data || o.respErrs != base.respErrs || !sameLog(o.log, base.log)):
+		return fmt.Sprintf("within the limit (%d <= %d) but rejected=%v data=%s (unlimited run: %s) resolvers=%v (unlimited: %v)", cref, limit, o.rejected, o.data, base.data, o.log, base.log)
+	}
+	return ""
+}
+
+// runHistory sends reqs in order through one fresh long-lived executor (own LRU document cache).
+// fixed: all requests carry the same limit and the server uses FixedComplexityLimit; otherwise
+// the per-request ComplexityLimit{Func}.
+func (w *worker) runHistory(order []int, es graphql.ExecutableSchema, text string, as Assign, fixed bool, reqs []histReq, rp Replay) {
+	var s *session
+	if fixed {
+		l := reqs[0].Limit
+		s = w.newSession(es, &l, false, lru.New[*ast.QueryDocument](4))
+	} else {
+		s = w.newSession(es, nil, true, lru.New[*ast.QueryDocument](4))
+	}
+	w.counts["histories"]++
+	differ := false
+	for i := range reqs {
+		if reqs[i].cref != reqs[0].cref || reqs[i].Limit != reqs[0].Limit {
+			differ = true
+		}
+	}
+	if differ {
+		w.counts["histories_with_differing_expectations"]++
+	}
+	for i, r := range reqs {
+		w.counts["history_requests"]++
+		var dyn *int
+		if !fixed {
+			l := r.Limit
+			dyn = &l
+		}
+		o := w.do(s, text, r.OpName, r.RawVars, dyn)
+		if msg := judge(&o, r.cref, r.Limit, r.base); msg != "" {
+			var labels []string
+			for _, q := range reqs {
+				labels = append(labels, fmt.Sprintf("%s@L=%d", q.Label, q.Limit))
+			}
+			rp.History = reqs
+			rp.Fixed = fixed
+			w.report(order, "history", fmt.Sprintf("history:%s|%s|%s", text, asString(as), strings.Join(labels, ">")),
+				fmt.Sprintf("long-lived executor with a query cache, request %d of [%s] on %s | custom %s: %s", i+1, strings.Join(labels, " > "), text, asString(as), msg), rp)
+			return
+		}
+	}
 }
 
 type httpOutcome struct {
@@ -385,6 +499,30 @@ func (w *worker) evalOp(p *prepared) {
 	fullGate := size <= w.cfg.FullGateMax
 	seenC := map[int]bool{}
 
+	// Variable family: the same query text with different variables. The representative is the
+	// operation in mode "given"; its variants send v=2, v=9, no value, null.
+	type variant struct {
+		op    *Op
+		label string
+		raw   map[string]any
+		base  gateOutcome
+	}
+	var variants []*variant
+	if size <= w.cfg.HistMax && p.op.VarMode == VarGiven && p.op.usesVar() {
+		for _, v := range []struct {
+			mode, val int
+			label     string
+		}{{VarGiven, 2, "v=2"}, {VarGiven, 9, "v=9"}, {VarAbsent, 0, "v absent"}, {VarNull, 0, "v=null"}} {
+			vo := &Op{Root: p.op.Root, Sels: p.op.Sels, VarMode: v.mode, VarVal: v.val}
+			if vo.Text() != p.text {
+				panic("harness: variable variants must share the query text")
+			}
+			vr := &variant{op: vo, label: v.label, raw: vo.Vars()}
+			vr.base = w.runExecutor(baseES, nil, p.text, "", vr.raw)
+			variants = append(variants, vr)
+		}
+	}
+
 	assignments(p.relevant, func(ai int, as Assign) {
 		order := []int{size, p.idx, ai}
 		w.counts["op_x_assignment"]++
@@ -419,12 +557,55 @@ func (w *worker) evalOp(p *prepared) {
 					fmt.Sprintf("complexity decreased when selections were added: %s = %d but %s = %d | custom %s", sp.text, cs, p.text, cimpl, asString(as)), rp)
 			}
 		}
+		// histories over the variable family: every ordered pair (and a-b-a triple) of variants
+		// through one long-lived executor with FixedComplexityLimit. Run for the assignments under
+		// which the variants' reference values can differ (a custom function that reads the
+		// argument) and for "no custom function".
+		// (operations above the full-gate size: without a second, unrelated deviating field)
+		readsArg := as["Query.arg"] == FnChildArg || as["Query.targ"] == FnChildArg
+		onlyArgFns := len(as) == 1 || (len(as) == 2 && as["Query.arg"] == FnChildArg && as["Query.targ"] == FnChildArg)
+		if variants != nil && (len(as) == 0 || (readsArg && (fullGate || onlyArgFns))) {
+			w.counts["variable_family_op_x_assignment"]++
+			cs := make([]int, len(variants))
+			for i, v := range variants {
+				cs[i], _, _ = RefComplexity(v.op, as)
+			}
+			mk := func(i, limit int) histReq {
+				v := variants[i]
+				return histReq{Label: v.label, RawVars: v.raw, Limit: limit, cref: cs[i], base: &v.base}
+			}
+			hi := 0
+			for a := range variants {
+				for b := range variants {
+					if a == b {
+						continue
+					}
+					// a > b > a at the lower value (the cheaper one admitted, the other rejected);
+					// a > b at the higher value (both admitted, ComplexityStats must still differ)
+					lo, up := min(cs[a], cs[b]), max(cs[a], cs[b])
+					hi++
+					w.runHistory(append(order, 1<<20+hi), es, p.text, as, true, []histReq{mk(a, lo), mk(b, lo), mk(a, lo)}, rp)
+					if up != lo {
+						hi++
+						w.runHistory(append(order, 1<<20+hi), es, p.text, as, true, []histReq{mk(a, up), mk(b, up)}, rp)
+					}
+				}
+			}
+		}
 		if !fullGate && seenC[cref] {
 			return
 		}
 		seenC[cref] = true
 		for li, l := range limitsFor(cref) {
 			w.gate(append(order, li), p, as, es, cref, l, &base)
+		}
+		// limit family: the same request with different per-request limits through one
+		// long-lived executor with ComplexityLimit{Func}
+		if size <= w.cfg.HistMax {
+			r := func(l int) histReq {
+				return histReq{Label: "same request", RawVars: p.rawVars, Limit: l, cref: cref, base: &base}
+			}
+			w.runHistory(append(order, 1<<21), es, p.text, as, false, []histReq{r(cref), r(cref - 1), r(cref)}, rp)
 		}
 	})
 
@@ -471,27 +652,50 @@ func (w *worker) evalOp(p *prepared) {
 		}
 	}
 
-	// documents with two operations: the limit applies to the selected one
+	// operationName family: a document with two operations (this one as Main and a more
+	// expensive Decoy); single requests and histories that switch the selected operation on one
+	// long-lived executor
 	if size <= 2 {
 		cref, _, _ := RefComplexity(p.op, Assign{})
 		named := strings.Replace(p.text, p.op.Root, p.op.Root+" Main", 1)
-		decoy := "query Decoy{t{kid{kid{kid{kid{id}}}}}}" // complexity 6 > any operation of <= 2 nodes
-		for di, text := range []string{decoy + " " + named, named + " " + decoy} {
-			for _, l := range []int{cref - 1, cref} {
-				l := l
-				w.counts["named_operation_runs"]++
-				o := w.runExecutor(baseES, &l, text, "Main", p.rawVars)
-				bad := o.panicValue != nil || len(o.otherErrs) > 0 || o.stats == nil || o.stats.Complexity != cref ||
-					(cref > l) != o.rejected || (o.rejected && len(o.log) != 0) || (!o.rejected && !sameLog(o.log, base.log))
-				if bad {
-					w.report([]int{size, p.idx, 1<<30 + 2 + di}, "named", fmt.Sprintf("named:%s|L=%d", text, l),
-						fmt.Sprintf("operationName=Main: rejected=%v stats=%+v resolvers=%v errs=%v panic=%v; reference %d limit %d; %s", o.rejected, o.stats, o.log, o.otherErrs, o.panicValue, cref, l, text),
-						Replay{Text: text, Limit: &l})
-				}
+		cdec, _, _ := RefComplexity(decoyOp, Assign{})
+		for di, text := range []string{decoyText + " " + named, named + " " + decoyText} {
+			decBase := w.runExecutor(baseES, nil, text, "Decoy", p.rawVars)
+			mainBase := w.runExecutor(baseES, nil, text, "Main", p.rawVars)
+			if mainBase.panicValue != nil || len(mainBase.otherErrs) > 0 || !sameLog(mainBase.log, base.log) || mainBase.data != base.data {
+				w.report([]int{size, p.idx, 1<<30 + 2 + di}, "named", "named-baseline:"+text,
+					fmt.Sprintf("unlimited run of operation Main differs from the single-operation document: %+v vs %+v", mainBase, base), Replay{Text: text})
+				continue
+			}
+			mainReq := func(l int) histReq {
+				return histReq{Label: "Main", OpName: "Main", RawVars: p.rawVars, Limit: l, cref: cref, base: &mainBase}
+			}
+			decReq := func(l int) histReq {
+				return histReq{Label: "Decoy", OpName: "Decoy", RawVars: p.rawVars, Limit: l, cref: cdec, base: &decBase}
+			}
+			order := []int{size, p.idx, 1<<30 + 2 + di}
+			rp := Replay{Text: text}
+			for _, l := range []int{cref - 1, cref, cdec} {
+				w.counts["named_operation_histories"] += 4
+				w.runHistory(order, baseES, text, Assign{}, true, []histReq{mainReq(l)}, rp)
+				w.runHistory(order, baseES, text, Assign{}, true, []histReq{decReq(l), mainReq(l)}, rp)
+				w.runHistory(order, baseES, text, Assign{}, true, []histReq{mainReq(l), decReq(l)}, rp)
+				w.runHistory(order, baseES, text, Assign{}, true, []histReq{mainReq(l), decReq(l), mainReq(l)}, rp)
 			}
 		}
 	}
 }
+
+const decoyText = "query Decoy{t{kid{kid{kid{kid{id}}}}}}" // complexity 6 > any operation of <= 2 nodes
+
+var decoyOp = func() *Op {
+	leaf := &Node{Kind: KField, Name: "id"}
+	n := leaf
+	for i := 0; i < 4; i++ {
+		n = &Node{Kind: KField, Name: "kid", Kids: []*Node{n}}
+	}
+	return &Op{Root: "query", Sels: []*Node{{Kind: KField, Name: "t", Kids: []*Node{n}}}}
+}()
 
 // ---- schema table self-check ----
 
@@ -576,6 +780,7 @@ func main() {
 	maxNodes := flag.Int("n", 4, "max selection nodes")
 	fullGate := flag.Int("fullgate", 3, "sizes <= this get the executor gate for every assignment")
 	httpMax := flag.Int("http", 4, "sizes <= this also go through HTTP POST")
+	histMax := flag.Int("hist", 4, "sizes <= this get request histories through a long-lived executor")
 	budget := flag.Int("budget", 100, "seconds")
 	shard := flag.Int("shard", 0, "this process handles generated operations with index % shards == shard")
 	shards := flag.Int("shards", 1, "number of harness processes")
@@ -589,7 +794,7 @@ func main() {
 		writeResult(*out, res)
 		os.Exit(2)
 	}
-	cfg := &Config{Layout: *layout, MaxNodes: *maxNodes, FullGateMax: *fullGate, HTTPMax: *httpMax, Grammar: grammarFor(*tier),
+	cfg := &Config{Layout: *layout, MaxNodes: *maxNodes, FullGateMax: *fullGate, HTTPMax: *httpMax, HistMax: *histMax, Grammar: grammarFor(*tier),
 		Deadline: time.Now().Add(time.Duration(*budget) * time.Second)}
 
 	if err := selfCheckFns(); err != nil {
@@ -777,6 +982,45 @@ func runReplay(w *worker, schema *ast.Schema, path string) {
 				fmt.Printf("  sub-operation %s: Calculate = %d, reference = %d\n", r.Text(), cs, rr)
 			}
 		}
+	}
+	if len(rp.History) > 0 {
+		var sess *session
+		if rp.Fixed {
+			l := rp.History[0].Limit
+			sess = w.newSession(es, &l, false, lru.New[*ast.QueryDocument](4))
+		} else {
+			sess = w.newSession(es, nil, true, lru.New[*ast.QueryDocument](4))
+		}
+		fmt.Printf("history through one long-lived executor with a query cache (fixed limit server: %v):\n", rp.Fixed)
+		for i, r := range rp.History {
+			for k, v := range r.RawVars {
+				if f, ok := v.(float64); ok {
+					r.RawVars[k] = int(f)
+				}
+			}
+			var dyn *int
+			if !rp.Fixed {
+				l := r.Limit
+				dyn = &l
+			}
+			o := w.do(sess, text, r.OpName, r.RawVars, dyn)
+			ref := "n/a"
+			if rp.Op != nil {
+				vo := &Op{Root: rp.Op.Root, Sels: rp.Op.Sels, VarMode: VarAbsent}
+				if v, ok := r.RawVars["v"]; ok {
+					if v == nil {
+						vo.VarMode = VarNull
+					} else {
+						vo.VarMode, vo.VarVal = VarGiven, v.(int)
+					}
+				}
+				c, _, _ := RefComplexity(vo, rp.Assign)
+				ref = fmt.Sprint(c)
+			}
+			fmt.Printf("  request %d %s operationName=%q variables=%v limit=%d: reference=%s rejected=%v resolvers=%v data=%s stats=%+v otherErrs=%v panic=%v\n",
+				i+1, r.Label, r.OpName, r.RawVars, r.Limit, ref, o.rejected, o.log, o.data, o.stats, o.otherErrs, o.panicValue)
+		}
+		return
 	}
 	if rp.Limit != nil {
 		o := w.runExecutor(es, rp.Limit, text, opName, rawVars)
